@@ -30,6 +30,7 @@ from mc.ref.digest import ref_digest
 from mc.ref.picked import Model, compare_entries, ref_entry_qvalues, ref_strip
 
 PROPERTY = "C15"
+SIZE_MODULES = ['mokapot.picked_protein', 'mokapot.confidence']  # see mc.runner._sized_passes
 LEVEL = "exploration"
 RULE = (
     "case = (mirrored database: multiset of target proteins as peptide subsets, canonical up to renaming; order of "
